@@ -13,6 +13,143 @@ RULE = "rule instances = (rule, site) pairs over MIR stores / call sites / table
 CI = 'endpoint::ConnectionIndex'
 
 
+def _is_call(d, *names):
+    """the descriptor IS (not merely contains) the result of a call to one of `names`"""
+    return isinstance(d, tuple) and d[0] == 'call' and any(d[1] == n or path_matches(d[2], n) or D._trait_form(d[1]) == n for n in names)
+
+
+def _is_param(d, name):
+    """the value IS the parameter (every phi alternative), not something computed from it"""
+    return all(x[0] == 'param' and x[2] == name for x in flat(d))
+
+
+def _emptiness_edges(ctx, body, subj):
+    """(Branch, empty: bool, target) for every branch edge that decides whether a value x with subj(x) is empty:
+    `x.is_empty()` (negations peeled), `x.len() == 0`, `x.len() != 0`, `0 < x.len()`, `x.len() <= 0`."""
+    F = ctx.facts
+
+    def meth(d, m):
+        return isinstance(d, tuple) and d[0] == 'call' and d[1].rsplit('::', 1)[-1] == m and len(d[3]) == 1 and subj(d[3][0])
+
+    out = [(br, truth, tgt) for br, truth, tgt in bool_edges(ctx, body, lambda d: meth(d, 'is_empty'))]
+    zero = lambda d: _fold(d) == 0 and not d[3]
+    for br in branches(F, body):
+        for truth in (True, False):
+            rel = relation_on(br.desc, truth)
+            if rel is None:
+                continue
+            o, a, b = rel
+            e = None
+            if o in ('Eq', 'Ne') and ((meth(a, 'len') and zero(b)) or (meth(b, 'len') and zero(a))):
+                e = (o == 'Eq')
+            elif o == 'Lt' and zero(a) and meth(b, 'len'):
+                e = False
+            elif o == 'Le' and meth(a, 'len') and zero(b):
+                e = True
+            if e is not None:
+                out.append((br, e, br.target(1 if truth else 0)))
+    # an edge only decides something when the two outcomes lead to different blocks
+    return [(br, e, t) for br, e, t in out if len(set(x for _, x in br.edges)) > 1]
+
+
+def _unprotected(body, viol_edges, sites):
+    """sites (blocks) that are NOT confined to the pass edge of a guard: for a protected site some guard branch
+    dominates it and the site cannot be reached from that guards violating edge without re-evaluating the guard."""
+    live = body.live_blocks()
+    return [s for s in sites if s in live and not any(
+        body.dominates(br.bb, s) and s not in body.reachable_from(tgt, avoid=[br.bb]) for br, tgt in viol_edges)]
+
+
+def _reach_assuming(body, assume):
+    """blocks reachable from the entry when the call sites for which assume(call) returns a bool are taken to return
+    that bool.  Forward propagation of known bool locals (const, copy, Not, assumed call results) per path; a switch
+    on a known local only follows the matching edge.  Anything not understood forgets the local (more reachable,
+    never less), locals whose address is taken mutably are never tracked."""
+    calls = {c.bb: c for c in body.calls()}
+    untracked = set()
+    for blk in body.blocks:
+        if blk['c']:
+            continue
+        for st in blk['s']:
+            if st[0] == '=' and ((st[2][0] == 'ref' and st[2][1]) or st[2][0] == 'ptr'):
+                untracked.add(st[2][2][0])
+
+    def val(o, env):
+        if o[0] in ('c', 'm'):
+            return env.get(o[1][0]) if not o[1][1] else None
+        if o[0] == 'k' and o[1] == 'int' and len(o) > 3 and o[3] == 'bool':
+            return str(o[2]) == '1'
+        return None
+
+    seen = set()
+    stack = [(0, frozenset())]
+    blocks = set()
+    while stack:
+        bb, fenv = stack.pop()
+        if (bb, fenv) in seen:
+            continue
+        seen.add((bb, fenv))
+        blocks.add(bb)
+        env = dict(fenv)
+        blk = body.blocks[bb]
+        for st in blk['s']:
+            if st[0] == '=':
+                l, proj = st[1]
+                v = None
+                if not proj:
+                    rv = st[2]
+                    if rv[0] == 'use':
+                        v = val(rv[1], env)
+                    elif rv[0] == 'un' and rv[1] == 'Not':
+                        x = val(rv[2], env)
+                        v = None if x is None else (not x)
+                env.pop(l, None)
+                if v is not None and l not in untracked:
+                    env[l] = v
+            elif st[0] == 'sd':
+                env.pop(st[1][0], None)
+        t = blk['t']
+        succ = list(body.succ[bb])
+        if t[0] == 'call':
+            c = calls.get(bb)
+            l, proj = c.dst
+            env.pop(l, None)
+            v = assume(c)
+            if v is not None and not proj and l not in untracked:
+                env[l] = bool(v)
+        elif t[0] == 'switch':
+            v = val(t[1], env)
+            if v is not None:
+                tgt = t[3]
+                for k, x in t[2]:
+                    if str(k) == ('1' if v else '0'):
+                        tgt = x
+                succ = [x for x in succ if x == tgt] if tgt in succ else succ
+        elif t[0] not in ('goto', 'drop', 'assert', 'ret'):
+            env = {}
+        fenv = frozenset(env.items())
+        for x in succ:
+            stack.append((x, fenv))
+    return blocks
+
+
+def _path_counts(body, site_blocks, at):
+    """possible numbers of `site_blocks` passed on an entry -> `at` path (capped at len+1 for cycles)"""
+    site_blocks = set(site_blocks)
+    cap = len(site_blocks) + 1
+    inn = {0: {0}}
+    work = [0]
+    while work:
+        b = work.pop()
+        out = {min(cap, n + (1 if b in site_blocks else 0)) for n in inn[b]}
+        for s2 in body.succ[b]:
+            cur = inn.setdefault(s2, set())
+            if not out <= cur:
+                cur |= out
+                work.append(s2)
+    return inn.get(at, set())
+
+
 def rule_a(ctx):
     F = ctx.facts
     rem = ctx.pfn('ConnectionIndex::remove')
@@ -77,7 +214,31 @@ def rule_b(ctx):
     ok = bool(rm) and bool(ins)
     ctx.check(ok, 'b', 'reset_token_replaced_not_accumulated', he, he.where(), 'old (remote, token) removed when a new one is registered', 'registering a new reset token no longer removes the connections previous one')
     for c in ins:
-        ctx.check(D.has_param(arg_desc(F, c, 3), name='ch'), 'b', 'reset_token_routes_to_its_connection', he, c.where(), 'insert(remote, token, ch)', 'reset token registered for another connection handle')
+        ctx.check(_is_param(arg_desc(F, c, 3), 'ch'), 'b', 'reset_token_routes_to_its_connection', he, c.where(), 'insert(remote, token, ch)', 'reset token registered for another connection handle')
+    # ResetTokenTable::remove(remote, token) forgets ONE token: the per-remote map as a whole (it may hold tokens of
+    # other connections behind the same address) is dropped from the outer table only over the `inner map is empty`
+    # edge of a dominating test
+    rt = ctx.pfn('ResetTokenTable::remove')
+    inner = [c for c in rt.calls_to('HashMap::remove', 'HashMap::remove_entry', 'OccupiedEntry::remove', 'OccupiedEntry::remove_entry') if len(c.args) > 1 and D.has_param(arg_desc(F, c, 1), name='token')]
+    def drops_remote(c):
+        # removal from the OUTER table (self.0): through the occupied entry of `remote`, or by key / wholesale on self.0 itself
+        a0 = arg_desc(F, c, 0)
+        if c in inner or not D.has_param(a0, name='self'):
+            return False
+        if c.is_('OccupiedEntry::remove_entry', 'OccupiedEntry::remove'):
+            return True
+        return not D.calls_in(a0)
+    outer = [c for c in rt.calls_to('OccupiedEntry::remove_entry', 'OccupiedEntry::remove', 'HashMap::remove', 'HashMap::remove_entry', 'HashMap::clear', 'HashMap::retain', 'HashMap::drain') if drops_remote(c)]
+    ctx.floor('b', 'reset_token_single_removal_sites', len(inner), 1)
+    ctx.floor('b', 'reset_token_remote_entry_removal_sites', len(outer), 1)
+    emp = _emptiness_edges(ctx, rt, lambda x: D.has_param(x, name='self') and D.has_param(x, name='remote') and not D.has_param(x, name='token'))
+    viol = [(br, t) for br, e, t in emp if not e]
+    if not viol:
+        ctx.bad('b', 'reset_token_remote_entry_dropped_only_when_empty/guard_missing', rt, rt.where(), 'the per-remote token map is removed from the table without a test that it is empty: tokens of other connections behind the same remote address are dropped with it')
+    else:
+        unp = _unprotected(rt, viol, [c.bb for c in outer])
+        ctx.check(not unp, 'b', 'reset_token_remote_entry_dropped_only_when_empty', rt, rt.where(), '%d outer removal site(s) only over the inner-map is_empty() == true edge' % len(outer),
+                  'outer removal block(s) %s reachable while the per-remote token map still holds other tokens' % unp)
 
 
 def rule_c(ctx):
@@ -89,14 +250,20 @@ def rule_c(ctx):
     ctx.check(not hi and bool(ve) and bool(en), 'c', 'cid_claimed_only_through_vacant_entry', nc, nc.where(), 'connection_ids.entry(cid) -> Vacant -> insert(ch)',
               'new_cid inserts into connection_ids with HashMap::insert: on a collision the other connections CID is re-pointed to this one before the retry')
     for c in ve:
-        ctx.check(D.has_param(arg_desc(F, c, 1), name='ch'), 'c', 'cid_routes_to_its_connection', nc, c.where(), 'e.insert(ch)', 'the new CID is mapped to something other than the requesting connection')
+        ctx.check(_is_param(arg_desc(F, c, 1), 'ch'), 'c', 'cid_routes_to_its_connection', nc, c.where(), 'e.insert(ch)', 'the new CID is mapped to something other than the requesting connection')
     # loop on collision: generate_cid is re-evaluated from the occupied edge
     gen = nc.calls_to('ConnectionIdGenerator::generate_cid')
     ok = bool(gen) and bool(en) and all(any(g.bb in nc.reachable_from(e.bb) for g in gen) for e in en)
     ctx.check(ok, 'c', 'collision_regenerates', nc, nc.where(), 'loop { generate_cid(); .. }', 'a colliding CID is not regenerated')
     # zero-length CIDs are not tracked
-    z = [br for br in branches(F, nc) if D.has_call(br.desc, 'ConnectionId::is_empty') or D.has_call(br.desc, '[T]::is_empty') or 'is_empty' in D.render(br.desc)]
-    ctx.check(bool(z), 'c', 'zero_length_cid_untracked', nc, nc.where(), 'cid.is_empty() -> return', 'zero-length CIDs are entered into the CID map')
+    # ... i.e. every claim site (connection_ids.entry / VacantEntry::insert / a plain insert) lies behind the
+    # `generated cid is empty == false` edge of a dominating test on the freshly generated CID
+    ze = _emptiness_edges(ctx, nc, lambda x: any(contains_site(x, g) for g in gen))
+    viol = [(br, t) for br, e, t in ze if e]
+    claim = sorted({c.bb for c in en + ve + hi})
+    unp = _unprotected(nc, viol, claim)
+    ctx.check(bool(viol) and bool(claim) and not unp, 'c', 'zero_length_cid_untracked', nc, nc.where(), 'cid.is_empty() -> leaves new_cid before connection_ids.entry(cid); %d claim site(s) only on the non-empty edge' % len(claim),
+              'zero-length CIDs are entered into the CID map: ' + ('no test of the generated CID for emptiness' if not viol else 'claim site block(s) %s reachable from the `cid.is_empty()` edge' % unp))
 
 
 def rule_d(ctx):
@@ -122,13 +289,23 @@ def rule_d(ctx):
     names = [f for f, _ in order]
     ctx.check(sorted(names) == sorted(['connection_ids', 'connection_ids_initial', 'incoming_connection_remotes', 'outgoing_connection_remotes']), 'd', 'lookup_tables', gg, gg.where(), str(names), 'ConnectionIndex::get no longer consults the four routing maps: %s' % names)
     bym = dict(order)
-    if len(bym) == 4:
+    if len(bym) == 4 and len(order) == 4:
         # dominance order: connection_ids first; initial map only under is_initial()/is_0rtt(); tuple maps only under empty dcid
         ctx.check(gg.reachable_from(bym['connection_ids'].bb) >= {bym['connection_ids_initial'].bb}, 'd', 'cid_map_consulted_first', gg, gg.where(), 'connection_ids before connection_ids_initial', 'lookup order changed')
-        ini = [br for br in branches(F, gg) if D.has_call(br.desc, 'PartialDecode::is_initial') or D.has_call(br.desc, 'PartialDecode::is_0rtt')]
-        ctx.check(bool(ini) and any(gg.dominates(br.bb, bym['connection_ids_initial'].bb) for br in ini), 'd', 'initial_map_only_for_initial_or_0rtt', gg, gg.where(), 'is_initial() || is_0rtt()', 'the initial-DCID map is consulted for other packet types')
-        emp = [br for br in branches(F, gg) if 'is_empty' in D.render(br.desc)]
-        ctx.check(any(gg.dominates(br.bb, bym['incoming_connection_remotes'].bb) and gg.dominates(br.bb, bym['outgoing_connection_remotes'].bb) for br in emp), 'd', 'tuple_maps_only_for_empty_dcid', gg, gg.where(), 'dst_cid().is_empty()', '4-tuple routing is used for non-empty DCIDs')
+        # the initial-map lookup is reachable ONLY when datagram.is_initial() or datagram.is_0rtt() returned true:
+        # taking both to return false (bools propagated through `||` temporaries, copies and `!`) the lookup must be
+        # unreachable from the entry (sensitive to polarity and to extra disjuncts)
+        tests = [c for c in gg.calls_to('PartialDecode::is_initial', 'PartialDecode::is_0rtt') if _is_param(arg_desc(F, c, 0), 'datagram')]
+        site = bym['connection_ids_initial'].bb
+        reach = _reach_assuming(gg, lambda c: False if c in tests else None)
+        ctx.check(bool(tests) and site not in reach, 'd', 'initial_map_only_for_initial_or_0rtt', gg, gg.where(), 'connection_ids_initial.get unreachable when is_initial() and is_0rtt() are false (%d test sites)' % len(tests),
+                  'the initial-DCID map is consulted for other packet types' + ('' if tests else ' (no is_initial()/is_0rtt() test on the datagram)'))
+        # the 4-tuple lookups lie behind the `dst_cid().is_empty() == true` edge of a dominating test
+        emp = _emptiness_edges(ctx, gg, lambda x: D.has_call(x, 'PartialDecode::dst_cid') and D.has_param(x, name='datagram'))
+        viol = [(br, t) for br, e, t in emp if not e]
+        unp = _unprotected(gg, viol, [bym['incoming_connection_remotes'].bb, bym['outgoing_connection_remotes'].bb])
+        ctx.check(bool(viol) and not unp, 'd', 'tuple_maps_only_for_empty_dcid', gg, gg.where(), 'both 4-tuple lookups only over dst_cid().is_empty() == true',
+                  '4-tuple routing is used for non-empty DCIDs' + ('' if viol else ' (no emptiness test of dst_cid())') + (': lookup block(s) %s reachable from a `!dst_cid().is_empty()` edge' % unp if unp else ''))
 
 
 def _fold(d):
@@ -155,8 +332,13 @@ def rule_e(ctx):
     cm = [c for c in constructions(F, 'endpoint::ConnectionMeta', 'ConnectionMeta', crate='quinn_proto')]
     for c in cm:
         v = describer(F, ac).operand(c.field_op('cids_issued'), c.bb, c.idx)
-        ks = sorted({_fold(x) for x in flat(v)})
-        ctx.check(ks in ([1, 2], [2], [1]), 'e', 'cids_issued_counts_initial_cids', ac, c.where(), 'cids_issued in %s' % ks, 'cids_issued literal %s does not equal the number of initially recorded CIDs' % ks)
+        ks = sorted({_fold(x) for x in flat(v)}, key=lambda k: (k is None, k))
+        # the folded values of cids_issued are exactly the possible numbers of loc_cids.insert sites passed on a path
+        # to the record construction (real tree: {1, 2}: with / without preferred-address CID)
+        want = sorted(_path_counts(ac, [x.bb for x in ins], c.bb))
+        ctx.check(None not in ks and ks == want and bool(ins), 'e', 'cids_issued_counts_initial_cids', ac, c.where(), 'cids_issued in %s == loc_cids.insert sites per path %s' % (ks, want),
+                  'cids_issued %s does not equal the number of initially recorded CIDs per path %s: the next issued CID reuses a sequence number' % (ks, want))
+    ctx.floor('e', 'connection_meta_sites', len(cm), 1)
     sni = ctx.pfn('Endpoint::send_new_identifiers')
     ins = [c for c in sni.calls_to('HashMap::insert') if D.has_field(arg_desc(F, c, 0), 'loc_cids')]
     ctx.floor('e', 'issued_cid_record_sites', len(ins), 1)
@@ -189,8 +371,18 @@ def rule_e(ctx):
     pp = ctx.pfn('Connection::process_payload')
     ev = [c for c in constructions(F, 'EndpointEventInner', 'RetireConnectionId', crate='quinn_proto') if F.root_of(c.body).id == pp.id]
     oc = pp.calls_to('CidState::on_cid_retirement')
-    ok = bool(ev) and bool(oc) and all(any(pp.dominates(o.bb, e.bb) for o in oc) for e in ev)
-    ctx.check(ok, 'e', 'retire_event_after_validation', pp, pp.where(), 'on_cid_retirement(..)? dominates RetireConnectionId event', 'RETIRE_CONNECTION_ID is forwarded to the endpoint without validation')
+    # the event is constructed only past the Ok (Continue) edge of a switch on the validators own result:
+    # with that edge cut the construction is unreachable from the entry
+    okedges = []
+    for o in oc:
+        for br in branches(F, pp):
+            if br.desc[0] == 'discr' and br.desc[1][0] == 'call' and is_site(br.desc[1], o):
+                t_ok, t_err = br.target(STD_VARIANTS['Result']['Ok']), br.target(STD_VARIANTS['Result']['Err'])
+                if t_ok is not None and t_ok != t_err:
+                    okedges.append((br.bb, t_ok))
+    ok = bool(ev) and bool(oc) and bool(okedges) and all(any(pp.dominates(o.bb, e.bb) for o in oc) and any(e.bb not in pp.reachable_from(0, avoid_edges={oe}) for oe in okedges) for e in ev)
+    ctx.check(ok, 'e', 'retire_event_after_validation', pp, pp.where(), 'RetireConnectionId event only past the Ok edge of on_cid_retirement(..) (%d Ok edge(s))' % len(okedges),
+              'RETIRE_CONNECTION_ID is forwarded to the endpoint without validation' + ('' if okedges else ': the result of on_cid_retirement is never branched on'))
 
 
 def rule_f(ctx):
